@@ -82,9 +82,9 @@ type Env struct {
 }
 
 // StructMaker returns a MakeStruct for the model type t (a struct whose fields
-// ID, Ca, Cb, Cs, Cn, Ct carry the columns of the same lower-case names).
+// ID, Ca, Cb, Cs, Cn, Ct, Cor, Band carry the columns of the same lower-case names).
 func StructMaker(t reflect.Type) func(map[string]interface{}, bool) interface{} {
-	names := map[string]string{"id": "ID", "ca": "Ca", "cb": "Cb", "cs": "Cs", "cn": "Cn", "ct": "Ct"}
+	names := map[string]string{"id": "ID", "ca": "Ca", "cb": "Cb", "cs": "Cs", "cn": "Cn", "ct": "Ct", "cor": "Cor", "band": "Band"}
 	return func(fields map[string]interface{}, ptr bool) interface{} {
 		p := reflect.New(t)
 		for col, v := range fields {
